@@ -324,3 +324,49 @@ def res_inf(r, s):
 def res_zero(r, s):
     """a zero of sign s (only a Float can carry a negative zero)"""
     return (fl_finite(r) and r._real._c == 0 and r._real._s == s) if cls_name(r) == 'Float' else (r == 0 and not s)
+
+
+# ---------------------------------------------------------------------------
+# the abstract interface Context.round_params(): (max precision | None, min position | None), a function of the context
+
+def rp_prec_none(ctx):
+    return ghost('rp_prec_none', obj_id(ctx)) != 0
+
+
+def rp_n_none(ctx):
+    return ghost('rp_n_none', obj_id(ctx)) != 0
+
+
+def rp_prec(ctx):
+    return ghost('rp_prec', obj_id(ctx))
+
+
+def rp_n(ctx):
+    return ghost('rp_n', obj_id(ctx))
+
+
+def float_vid(x):
+    """value identity of the mpfr that float_to_mpfr(x) returns (see trusted contract FloatToMpfr)"""
+    nan = x._isnan
+    inf = x._isinf and not x._isnan
+    return ghost('fvid', b2i(nan), b2i(inf), b2i(x._real._s), x._real._exp, x._real._c)
+
+
+def app_id_floats(fid, xs):
+    """identity of sem(fid)(xs) for Float operands converted by float_to_mpfr"""
+    n = len(xs)
+    return ghost('app', fid, n,
+                 float_vid(xs[0]) if n > 0 else 0,
+                 float_vid(xs[1]) if n > 1 else 0,
+                 float_vid(xs[2]) if n > 2 else 0)
+
+
+def rto_of(y, r, prec, n):
+    """r is the round-to-odd intermediate of the exact value y that mpfr_call(prec, n) returns (contract MpfrCall)"""
+    E = rto_exp(y_e(y), prec, n)
+    fnz = y_fnz(y)
+    return (implies(y_nan(y), r._isnan and not r._isinf)
+            and implies(y_inf(y), r._isinf and not r._isnan and r._real._s == y_neg(y))
+            and implies(y_zero(y), fl_finite(r) and r._real._c == 0 and r._real._s == y_neg(y))
+            and implies(fnz, fl_finite(r) and r._real._s == y_neg(y) and r._real._exp == E
+                        and r._real._c == rto_c(y_dig(y, E), y_stk(y, E)) and flags_clear(r._real)))
